@@ -43,6 +43,10 @@ CLAIMED = {
    text='Decides: the statement-class dispatch of _compile_dispatch_ql, abstractly evaluated over every concrete qlast statement class, returns the capability of the class family (DDL, +TRANSACTION for migration commands with a tx action, TRANSACTION, SESSION_CONFIG, scope-dependent config capability, MODIFICATIONS iff has_dml); every construction of a mutating IR statement is dominated by a dml_exprs record and modifying function calls are recorded; has_dml derives from the dml_exprs of the same IR, MODIFICATIONS is guarded only by it, capabilities flow unmodified into the unit and are aggregated by union; flag enum sanity. Volatility inference of function bodies is not decided.',
    note=NOTE,
    technique='static analysis: abstract evaluation of an isinstance chain over the resolved class hierarchy, CFG dominance, provenance of keyword arguments, enum table checks'),
+ 'C06': dict(
+   text='Decides: the cardinality reported to clients derives only from the inferred ir.cardinality of the same IR through an identity mapping that covers every member; every concrete IR expression/statement class resolves to a non-raising cardinality and multiplicity handler (reasoned inline exceptions) and the sibling registries agree; declared single/required pointers and globals are enforced by comparisons in the right direction that dominate the pointer update; four bound facts forced by set semantics (EXCEPT/INTERSECT lower bound zero, UNION sums, empty set may be empty, DISTINCT is UNIQUE and the multi fall-through is DUPLICATE). The soundness of the remaining bounds algebra is not decided - that needs the reference semantics, not source shape.',
+   note=NOTE,
+   technique='static analysis: provenance of reported values, singledispatch registry exhaustiveness over the IR class hierarchy with sibling cross-check, CFG dominance of enforcement comparisons, operator-arm table facts'),
 }
 
 _PENDING = 'check not built yet in this round (design in DESIGN.md §3); will be claimed when its rules are armed'
